@@ -47,3 +47,20 @@ Theorem C10_pdelay_resp_follow_up_exact : forall d src rq id t minor,
               Ok (mkMsg (base_header d src id minor) (BPDelayRespFollowUp w rq) [])
             /\ ts_bits w = t - t mod FRAC.
 Proof. exact pdelay_resp_follow_up_exact. Qed.
+
+(** C10_frames_main: for every valid set-up and EVERY valid event list, every
+    frame the model emits decodes under the modelled parser to a message that
+    carries the emitting port's identity and the instance's domain and sdoId,
+    has exactly its declared size (at most the 1024-octet packet buffer) and goes
+    out on the channel (event / general) of its message type: the frame conjunct
+    of the oracle ok_C10 ([ok_C10_frames], which ok_C10 implies) holds on the
+    model's own trace.  The remaining conjuncts of ok_C10 (sequence ids, exactly
+    one response with exact timestamps) are proved per handler above and judged
+    on traces. *)
+From SV Require Import Port.MainC10.
+Theorem C10_frames_main : forall s es rel,
+  setup_valid s -> Forall event_valid es ->
+  exists i o, init s = Ok (i, o) /\ ok_C10_frames (mkCase s es rel (Some o) (run i es)) = true.
+Proof. exact ok_C10_frames_model. Qed.
+Theorem C10_oracle_implies_frames : forall c, ok_C10 c = true -> ok_C10_frames c = true.
+Proof. exact ok_C10_implies_frames. Qed.
